@@ -111,7 +111,11 @@ def setup_worker(w, tier):
 def generate(rs, tier):
   g = stream(rs, 'gen')
   if g.random() < 0.65:
-    sp = P.gen_module(g, allow=('param', 'param', 'var', 'rng', 'child'))
+    sp = P.gen_module(g, allow=('param', 'param', 'var', 'rng', 'child') + (('sow',) if g.random() < 0.35 else ()))
+    for ins in sp['body']:
+      if ins['i'] == 'sow':
+        ins['col'] = 'intermediates'
+        ins.pop('how', None)
     for ins in sp['body']:
       if ins['i'] == 'param' and ins['kind'] == 'bias' and g.random() < 0.3:
         ins['part'] = ['dp']
@@ -122,7 +126,7 @@ def generate(rs, tier):
     for _ in range(g.randrange(2, 9)):
       r = g.random()
       if r < 0.7:
-        ops.append(dict(op='call', mutable=g.choice([None, None, ['stats', 'batch_stats', 'cache'], ['stats'], ['batch_stats', 'cache']]), fill=g.randrange(3)))
+        ops.append(dict(op='call', mutable=g.choice([None, None, ['stats', 'batch_stats', 'cache'], ['stats'], ['batch_stats', 'cache'], ['intermediates'], ['intermediates', 'stats', 'batch_stats', 'cache']]), fill=g.randrange(3)))
         if g.random() < 0.2:
           # this one call brings its own Rngs; the wrapper's own streams are not involved and continue afterwards
           ops[-1]['call_rngs'] = g.randrange(100, 104)
@@ -186,6 +190,15 @@ def extract(w):
     elif isinstance(x, dict):
       for k, v in x.items():
         go(v, path + [k])
+    elif isinstance(x, (tuple, list)) and x and all(isinstance(e, nnx.Variable) for e in x):
+      # a tuple-valued Linen variable (what `sow` accumulates): one NNX Variable per element
+      col = COL_OF.get(type(x[0]).__name__, type(x[0]).__name__)
+      d = out.setdefault(col, {})
+      for k in path[:-1]:
+        d = d.setdefault(k, {})
+      d[path[-1]] = type(x)(np.asarray(e.value) for e in x)
+      for i, e in enumerate(x):
+        where[(col,) + tuple(path) + (i,)] = e
 
   for k, v in vars(w).items():
     if k in ('module', 'rngs', '_object__state'):
@@ -290,7 +303,7 @@ class ToNNXWorld:
           raise Violation('metadata-lost', f'{what}: metadata {kk}={vv!r} set on {path} is gone (metadata now {dict((a, b) for a, b in md.items() if not a.endswith("_hooks"))})')
     for path, var in where.items():
       col = path[0]
-      want = {'params': nnx.Param, 'batch_stats': nnx.BatchStat, 'cache': nnx.Cache}.get(col)
+      want = {'params': nnx.Param, 'batch_stats': nnx.BatchStat, 'cache': nnx.Cache, 'intermediates': nnx.Intermediate}.get(col)
       if want is not None and type(var) is not want:
         raise Violation('collection-type-mismatch', f'{what}: collection {col!r} at {path[1:]} is stored as {type(var).__name__}, expected {want.__name__}')
       if want is None and type(var).__name__ != col:
